@@ -188,11 +188,11 @@ def _work(item):
                 okey = oc if isinstance(oc, str) else json.dumps(_jsonable(oc))
                 out["outcomes"][okey] += 1
                 if want_validate and len(out["paths_for_validation"]) < task.get("validate_cap", 100000):
-                    out["paths_for_validation"].append((res.inputs, oc))
+                    out["paths_for_validation"].append((res.inputs, _jsonable(oc) if not isinstance(oc, (str, list, tuple)) else oc))
             if res.nonexhaustive:
                 out["nonexhaustive"].append(res.nonexhaustive)
             for f in res.failed:
-                out["failed"].append(f)
+                out["failed"].append((f[0], f[1], f[2], _jsonable(f[3])))
         out["queries"] = engine.n_queries
         out["unsat"] = engine.n_unsat
         out["sat"] = engine.n_sat
